@@ -35,16 +35,15 @@ DKF(cls, dev) == DJ => (DS \/ StepClass(last.h, last.e, last.o) # cls \/ NotifOK
 
 D_C07_Transitions == DJ => (DS \/ P_Transitions(last.h, last.e, last.o))
 D_C07_EstablishedOnlyAfterOpenKeepalive ==
-  DJ => (DS \/ P_EstablishedOnlyAfterOpenKeepalive(last.h, last.e, last.o, hh)
-            \/ Dev_TaintedEstablished(last.h, last.e, last.o, hh))
+  DJ => (DS \/ P_EstablishedOnlyAfterOpenKeepalive(last.h, last.e, last.o, hh))
 D_C07_Notification == DJ => (DS \/ (P_Notification(last.h, last.e, last.o) /\ P_NoHardResetWithoutN(last.h, last.e, last.o)))
-D_C07_Notif_OpenConfirmUnexpected == DKF("OCUnexpected", Dev_OCUnexpected(last.h, last.e, last.o))
-D_C07_Notif_EstablishedOpen == DKF("EstOpen", Dev_EstOpen(last.h, last.e, last.o))
-D_C07_Notif_UnsupportedOptParam == DKF("UnsupOpt", Dev_UnsupOpt(last.h, last.e, last.o))
-D_C07_Notif_KeepaliveLength == DKF("KaLen", Dev_KaLen(last.h, last.e, last.o))
+D_C07_Notif_OpenConfirmUnexpected == DJ => (DS \/ P_NotifClass("OCUnexpected", last.h, last.e, last.o))
+D_C07_Notif_EstablishedOpen == DJ => (DS \/ P_NotifClass("EstOpen", last.h, last.e, last.o))
+D_C07_Notif_UnsupportedOptParam == DJ => (DS \/ P_NotifClass("UnsupOpt", last.h, last.e, last.o))
+D_C07_Notif_KeepaliveLength == DJ => (DS \/ P_NotifClass("KaLen", last.h, last.e, last.o))
 D_C07_Notif_OpenWhileIdle == DKF("IdleOpen", Dev_IdleOpen(last.h, last.e, last.o))
 D_C07_Notif_ManualStopEarly == DKF("ManualStopEarly", Dev_ManualStopEarly(last.h, last.e, last.o))
-D_C07_Notif_NoSpurious == DKF("Spurious", Dev_Spurious(last.h, last.e, last.o))
+D_C07_Notif_NoSpurious == DJ => (DS \/ P_NotifClass("Spurious", last.h, last.e, last.o))
 D_C07_TimerInstant == DJ => (DS \/ P_TimerInstant(last.h, last.e, last.o, LargeHold))
 D_C07_Timer_OpenConfirm ==
   DJ => (DS \/ P_Timer_OpenConfirm(last.h, last.e, last.o, LargeHold) \/ Dev_Timer_OpenConfirm(last.h, last.e, last.o, LargeHold))
